@@ -8,6 +8,9 @@ package types
 // valid defining scope and a body of the form (do ...).
 //@ invariant MalFunc(f) = f.Eval != nil && f.GenEnv != nil && validEnvVal(f.Env) && (f.Exp == nil || (is(f.Exp, List) && len(f.Exp.(List).Val) > 0))
 //@ invariant Func(f) = f.Fn != nil
+// pointers that reach an interface are non-nil (a typed nil *Token in a MalType would make
+// the value-receiver method Token.GetPosition dereference nil)
+//@ invariant *Token(p) = p != nil
 //@ invariant `func([]MalType) (MalType, error)`(f) = f != nil
 
 
@@ -120,19 +123,19 @@ package types
 //@ func NewHashMap(seq) (r, e)
 //@   panics never
 //@   assigns nothing
-//@   ensures implies(e == nil, isSeq(seq) && len(elems(seq)) % 2 == 0 && is(r, HashMap) && fresh(r.(HashMap).Val) && evenKeysAreStrings(elems(seq), len(elems(seq))) && pairModel(r.(HashMap).Val, elems(seq), len(elems(seq))))
-//@   ensures implies(isSeq(seq) && len(elems(seq)) % 2 == 0 && evenKeysAreStrings(elems(seq), len(elems(seq))), e == nil)
-//@   ensures implies(!isSeq(seq) || len(elems(seq)) % 2 == 1, e != nil)
-//@   loop 1 invariant i % 2 == 0 && 0 <= i && i <= len(lst) && fresh(m) && evenKeysAreStrings(lst, i) && pairModel(m, lst, i)
+//@   ensures implies(e == nil, isSeq(seq) && len(elems(seq)) % 2 == 0 && is(r, HashMap) && fresh(r.(HashMap).Val) && evenKeysAreStrings(elems(seq), len(elems(seq))) && pairModel(r.(HashMap).Val, elems(seq), len(elems(seq)))) @C13
+//@   ensures implies(isSeq(seq) && len(elems(seq)) % 2 == 0 && evenKeysAreStrings(elems(seq), len(elems(seq))), e == nil) @C13
+//@   ensures implies(!isSeq(seq) || len(elems(seq)) % 2 == 1, e != nil) @C13
+//@   loop 1 invariant i % 2 == 0 && 0 <= i && i <= len(lst) && fresh(m) && evenKeysAreStrings(lst, i) && pairModel(m, lst, i) @C13
 
 //@ func NewSet(seq) (r, e)
 //@   panics never
 //@   assigns nothing
-//@   ensures implies(seq == nil, e == nil && len(r.Val) == 0)
-//@   ensures implies(isSeq(seq) && forall(j, 0, len(elems(seq)), is(elems(seq)[j], string)), e == nil && forallkey(k, has(r.Val, k) == exists(j, 0, len(elems(seq)), elems(seq)[j] == val(k))))
-//@   ensures implies(seq != nil && !isSeq(seq), e != nil)
-//@   ensures implies(isSeq(seq) && exists(j, 0, len(elems(seq)), !is(elems(seq)[j], string)), e != nil)
-//@   loop 1 invariant fresh(m) && forall(j, 0, rangeindex + 1, is(lst[j], string)) && forallkey(k, has(m, k) == exists(j, 0, rangeindex + 1, lst[j] == val(k)))
+//@   ensures implies(seq == nil, e == nil && len(r.Val) == 0) @C13
+//@   ensures implies(isSeq(seq) && forall(j, 0, len(elems(seq)), is(elems(seq)[j], string)), e == nil && forallkey(k, has(r.Val, k) == exists(j, 0, len(elems(seq)), elems(seq)[j] == val(k)))) @C13
+//@   ensures implies(seq != nil && !isSeq(seq), e != nil) @C13
+//@   ensures implies(isSeq(seq) && exists(j, 0, len(elems(seq)), !is(elems(seq)[j], string)), e != nil) @C13
+//@   loop 1 invariant fresh(m) && forall(j, 0, rangeindex + 1, is(lst[j], string)) && forallkey(k, has(m, k) == exists(j, 0, rangeindex + 1, lst[j] == val(k))) @C13
 
 //@ func Nil_Q(obj) (r)
 //@   pure
